@@ -32,10 +32,14 @@
 (*                 (Par.tla, NoLockConflict: perfect recall keeps them in  *)
 (*                 one task); an accumulator shared across tasks needs a   *)
 (*                 blocking lock.                                          *)
+(*   AtomicAdd     FALSE: U(n, a) is a load followed by a store of the     *)
+(*                 regret cell of (I, a) instead of one atomic fetch_add   *)
+(*                 (the seeded change C07g): a concurrent update of the    *)
+(*                 same cell by another task is lost                       *)
 (***************************************************************************)
 EXTENDS Naturals, Sequences, FiniteSets, TLC
 
-CONSTANTS UseMutex, SharedScratch, TryLock
+CONSTANTS UseMutex, SharedScratch, TryLock, AtomicAdd
 
 \* ------------------------------------------------------------------ instances
 \* a task is a tree of decision nodes: [id, info, kids] with kids = sequence (one per action) of
@@ -62,7 +66,10 @@ Ops(n) ==
   LET na == Len(n.kids)
       perAction == [a \in 1..na |->
                       (IF n.kids[a].id = 0 THEN <<>> ELSE Ops(n.kids[a]))
-                        \o << [op |-> IF SharedScratch THEN "St" ELSE "U", node |-> n.id, info |-> n.info, a |-> a] >>]
+                        \o (IF SharedScratch THEN << [op |-> "St", node |-> n.id, info |-> n.info, a |-> a] >>
+                            ELSE IF AtomicAdd THEN << [op |-> "U", node |-> n.id, info |-> n.info, a |-> a] >>
+                            ELSE << [op |-> "Ul", node |-> n.id, info |-> n.info, a |-> a],
+                                    [op |-> "Us", node |-> n.id, info |-> n.info, a |-> a] >>)]
       after == [a \in 1..na |-> [op |-> IF SharedScratch THEN "D" ELSE "E", node |-> n.id, info |-> n.info, a |-> a]]
       strat == IF UseMutex
                THEN << [op |-> "lock", node |-> n.id, info |-> n.info, a |-> 0],
@@ -77,8 +84,8 @@ RECURSIVE NodesOf(_)
 NodesOf(n) == {<<n.id, n.info, Len(n.kids)>>}
                 \cup UNION {IF n.kids[a].id = 0 THEN {} ELSE NodesOf(n.kids[a]) : a \in 1..Len(n.kids)}
 
-VARIABLES inst, pc, cumR, cumS, local, lock, scratch, panicked
-vars == <<inst, pc, cumR, cumS, local, lock, scratch, panicked>>
+VARIABLES inst, pc, cumR, cumS, local, lock, scratch, panicked, loaded
+vars == <<inst, pc, cumR, cumS, local, lock, scratch, panicked, loaded>>
 
 Tasks == Instances[inst]
 Workers == 1..Len(Tasks)
@@ -100,6 +107,7 @@ Init == /\ inst \in 1..Len(Instances)
         /\ scratch = [i \in {x[2] : x \in UNION {NodesOf(Instances[inst][w]) : w \in 1..Len(Instances[inst])}} |->
                         [a \in 1..2 |-> 0]]
         /\ panicked = FALSE
+        /\ loaded = [w \in 1..Len(Instances[inst]) |-> Empty]
 
 \* try_lock on a busy mutex: the worker panics (the pool propagates the panic out of solve)
 Panic(w) ==
@@ -107,7 +115,14 @@ Panic(w) ==
   /\ pc[w] <= Len(Prog(w))
   /\ Prog(w)[pc[w]].op = "lock" /\ lock[Prog(w)[pc[w]].info] # 0
   /\ panicked' = TRUE
-  /\ UNCHANGED <<inst, pc, cumR, cumS, local, lock, scratch>>
+  /\ UNCHANGED <<inst, pc, cumR, cumS, local, lock, scratch, loaded>>
+
+\* the regret cell of (infoset, action): the tokens of all nodes of that infoset for that action
+InfoOfNode(id) == (CHOOSE x \in AllNodes : x[1] = id)[2]
+InCell(tok, info, a) == tok[2] = a /\ InfoOfNode(tok[1]) = info
+CellOf(bag, info, a) == [t \in {x \in DOMAIN bag : InCell(x, info, a)} |-> bag[t]]
+OutsideCell(bag, info, a) == [t \in {x \in DOMAIN bag : ~InCell(x, info, a)} |-> bag[t]]
+Merge(b1, b2) == [t \in DOMAIN b1 \cup DOMAIN b2 |-> IF t \in DOMAIN b1 THEN b1[t] ELSE b2[t]]
 
 Step(w) ==
   /\ pc[w] <= Len(Prog(w)) /\ ~panicked
@@ -120,7 +135,10 @@ Step(w) ==
         /\ local' = IF o.op = "read" THEN [local EXCEPT ![w] = cumS[o.info]] ELSE local
         /\ cumS' = IF o.op = "write" THEN [cumS EXCEPT ![o.info] = local[w] \cup {o.node}] ELSE cumS
         /\ scratch' = IF o.op = "St" THEN [scratch EXCEPT ![o.info][o.a] = o.node] ELSE scratch
+        /\ loaded' = IF o.op = "Ul" THEN [loaded EXCEPT ![w] = CellOf(cumR, o.info, o.a)] ELSE loaded
         /\ cumR' = IF o.op = "U" THEN Add(cumR, <<o.node, o.a, "u", o.node>>)
+                   \* the store writes back what was loaded plus the own contribution: whatever others added in between is gone
+                   ELSE IF o.op = "Us" THEN Merge(OutsideCell(cumR, o.info, o.a), Add(loaded[w], <<o.node, o.a, "u", o.node>>))
                    ELSE IF o.op = "E" THEN Add(cumR, <<o.node, o.a, "e", o.node>>)
                    ELSE IF o.op = "D" THEN Add(Add(cumR, <<o.node, o.a, "u", scratch[o.info][o.a]>>), <<o.node, o.a, "e", o.node>>)
                    ELSE cumR
